@@ -322,8 +322,10 @@ pub fn run_c16(out: &mut Out, rng: &mut Rng, thorough: bool, only: Option<&str>)
         }
         let v = *v;
         // (a) serialization and the way back, real formats and the recording mock
-        for _ in 0..(if thorough { 60 } else { 8 }) {
-            let img = image(v, rng);
+        // random values, then the special ones (uniform, sparse headers, images that begin like the text form)
+        let mut values: Vec<Vec<u8>> = (0..(if thorough { 60 } else { 8 })).map(|_| image(v, rng)).collect();
+        values.extend(crate::fam_codec::special_images(v, rng));
+        for img in values.iter().cloned() {
             let h = v.hash(&img).unwrap();
             let (j, c, p) = (h.ser_json(), h.ser_cbor(), h.ser_postcard());
             let (mh, mc) = (h.ser_mock(true), h.ser_mock(false));
@@ -357,6 +359,9 @@ pub fn run_c16(out: &mut Out, rng: &mut Rng, thorough: bool, only: Option<&str>)
         let mut payloads: Vec<Vec<u8>> = Vec::new();
         let good = image(v, rng);
         payloads.push(good.clone()); // binary form
+        for img in values.iter().skip(if thorough { 60 } else { 8 }) {
+            payloads.push(img.clone());
+        }
         payloads.push(hex_text_unchecked(v, &good, true)); // text forms
         payloads.push(hex_text_unchecked(v, &good, false));
         payloads.push(hex_text_unchecked(v, &good, true).to_ascii_lowercase().iter().map(|&c| if c == b't' { b'T' } else { c }).collect());
